@@ -104,7 +104,7 @@ def _check(mods, pars, reg, training, req, gstate):
     for i in range(2):
         if pars[i].requires_grad != req[i]:
             return False
-        g = pars[i]._grad
+        g = _g(pars[i])
         if gstate[i] is None:
             if g is not None:
                 return False
@@ -178,9 +178,9 @@ def %(name)s(rest: List[int]) -> bool:
             for p in _reach_params(reg, 1):
                 if req[p]: gstate[p] = 0
         elif a == 22:
-            pars[0]._grad = np.ones(pars[0].shape, dtype=np.float32); gstate[0] = 1
+            _setg(pars[0], np.ones(pars[0].shape, dtype=np.float32)); gstate[0] = 1
         elif a == 23:
-            pars[1]._grad = np.ones(pars[1].shape, dtype=np.float32); gstate[1] = 1
+            _setg(pars[1], np.ones(pars[1].shape, dtype=np.float32)); gstate[1] = 1
         elif a == 24:
             mods[1].train()
             for m in _reach_mods(reg, 1): training[m] = True
